@@ -19,18 +19,34 @@ from vlib.core import Soft, Sub
 PROPERTY_ID = "C01"
 LEVEL = "exploration"
 RULE = (
-    "A case is (implementation old/new, moltype, parent string, annotation offset, chain of 1-7 operations drawn from "
-    "slice(start,stop,step) with bounds relative to the current length incl. out-of-range and negative values and steps "
-    "in +-1,2,3,7, integer index, rc, to_rna/to_dna, copy). After every step str/len/iteration/indexing and "
-    "parent_coordinates are compared with the string model. The method differential calls every public read-only method "
-    "on the final view and on make_seq(str(view)). Non-trivial = chain depth >= 2 containing a negative step or rc with a "
-    "non-empty result; distinct = distinct case encodings."
+    "A case is (implementation old / new / new-coll, moltype dna/rna/protein/protein_with_stop/text/bytes, parent string, "
+    "annotation offset, chain of 1-7 operations drawn from slice(start,stop,step) with bounds relative to the current "
+    "length incl. out-of-range and negative values and steps in +-1,2,3,7, integer index, rc, to_rna/to_dna, copy). "
+    "old/new sequences come from make_seq(str) or, in a fifth of the cases, from SeqView(seq=,start=,stop=,step=,offset=,seqid=) "
+    "with arbitrary (negative, out-of-range) arguments wrapped by make_seq; the offset is given at construction or assigned to "
+    "annotation_offset. new-coll sequences are make_unaligned_seqs({...}, new_type=True) followed by a route of 0-3 collection "
+    "operations (rc, take_seqs, take_seqs(negate), rename_seqs, add_seqs, to_rna/to_dna) and get_seq(name), optionally with "
+    "annotation_offset assigned. After every step str/len/iteration/indexing(/bytes) and parent_coordinates are compared with the "
+    "string model, and the receiver of the step must read as before. The method differential calls every public read-only "
+    "method on the final view and on make_seq(str(view)); two-sequence methods get a second sequence that is itself a view; "
+    "frac_same/frac_diff/diff/distance/frac_similar/matrix_distance are also compared with their documented value computed on "
+    "strings. The dunder sub-check compares ==, !=, <, hash, in, +, numpy.array, bytes and repr with the string model or the "
+    "fresh sequence. Non-trivial = chain depth >= 2 containing a negative step or rc with a non-empty result; distinct = distinct "
+    "case encodings."
 )
 ASSUMPTIONS = [
     "parent_coordinates of a strided view: reading parent[start-offset:stop-offset] on the reported strand with the view's stride must reproduce the displayed index list (the interval may extend to the clamp)",
     "after to_rna/to_dna the result may either be its own parent (coordinates 0..len, strand +) or keep the original coordinates; whichever the implementation chooses must then stay consistent",
     "step 0 is excluded (documented ValueError); integer indices out of range must raise IndexError",
     "methods that are random, plotting, annotation-related (C04) or serialising (C10) are excluded from the method differential; the list is in the evidence classes",
+    "SeqView(seq=, start=, stop=, step=) accepts any integers or None with step != 0 and displays seq[start:stop:step] (pinned by tests/test_core/test_new_sequence.py::test_seqview_initialisation / test_seqview_init_with_negatives); a negative step makes the wrapping nucleic sequence complement, exactly as a slice with that step",
+    "collection routes: coll.rc() reverse-complements every member (nucleic moltypes only are generated), take_seqs / rename_seqs / add_seqs / to_rna / to_dna leave the displayed sequence of the retained member unchanged apart from the T/U exchange; the member name after rename_seqs is the renamed one and is what parent_coordinates must report",
+    "an annotation offset reaches a collection-backed sequence only through the annotation_offset setter (what annotate_from_gff(offset=) does); it is assigned to the fresh, unsliced sequence only, where its meaning is unambiguous",
+    "a step (or a method call) must not change what its receiver displays: sequences are documented immutable",
+    "agreement of the method differential where both the view and the fresh sequence raise the same exception type proves nothing about the view; such calls are counted in coverage classes both-raise:<method> next to answered:<method>",
+    "dunder semantics asserted are the documented ones: ==, !=, < compare the sequence strings, hash is that of the string, `x in seq` tests the string (str operands only), seq + other concatenates the strings (old-style text sequences excepted: their constructor upper-cases, so + is only compared with the fresh sequence); numpy.array()/repr() have no documented value and are compared with the fresh sequence only",
+    "once a step of a chain has failed the chain stops: later steps would only repeat the first root cause under other signatures",
+    "circumstance tags keep confirmed defects apart from the rest of the search: new-coll@offset (annotation_offset assigned to a collection-backed sequence), copy@coll-slice (copy() of a collection-backed view that does not start at 0), new-coll@bytes (bytes moltype in a new-style collection)",
 ]
 
 DNA_COMP = dict(zip("ACGTRYMKWSBDHVN-?", "TGCAYRKMWSVHDBN-?"))
@@ -40,7 +56,12 @@ ALPHABETS = {
     "rna": ("ACGU", "ACGURYMKWSBDHVN-?"),
     "protein": ("ACDEFGHIKLMNPQRSTVWY", "ACDEFGHIKLMNPQRSTVWYBXZ-?"),
     "text": ("abcXYZ", "abcXYZqrs-"),
+    "protein_with_stop": ("ACDEFGHIKLMNPQRSTVWY*", "ACDEFGHIKLMNPQRSTVWY*BXZ-?"),
+    "bytes": ("aAbB01", "aAbB01 *-?~"),
 }
+NUCLEIC = ("dna", "rna")
+MOLTYPES = ["dna"] * 4 + ["rna"] * 2 + ["protein", "text", "protein_with_stop", "bytes"]
+IMPLS = ["old", "new", "new-coll"]
 
 
 def complement(s: str, mt: str) -> str:
@@ -126,19 +147,93 @@ class Model:
 STEPS = [None, 1, -1, None, 1, -1, -1, 2, -2, 2, -2, 3, -3, 7, -7]
 
 
+def convert_str(s: str, to: str) -> str:
+    return s.replace("T", "U") if to == "rna" else s.replace("U", "T")
+
+
+def setup_models(case):
+    """models of the sequence a case starts from, i.e. after the constructor
+    route (SeqView arguments) or the collection route; shared by the
+    generator and by execute so that both agree on the starting point"""
+    m = Model(case["parent"], case["mt"], case["offset"], "s1")
+    models = [m]
+    if "ctor" in case:
+        a, b, step = case["ctor"]
+        m.slice(a, b, step)
+    for r in (case.get("coll") or {}).get("route", []):
+        if r == "rc":
+            for x in models:
+                x.rc()
+        elif r == "rename":
+            for x in models:
+                x.name += "x"
+        elif r in ("to_rna", "to_dna"):
+            to = r[3:]
+            if to != models[0].mt:
+                models = [x.convert(to) for x in models[:1]] + [x.convert_keep(to) for x in models]
+    return models
+
+
 @st.composite
-def chain_cases(draw, max_len=40, max_depth=7, methods=False):
-    mt = draw(st.sampled_from(["dna", "dna", "dna", "rna", "protein", "text"]))
+def other_seq(draw, mt, n):
+    """second sequence for two-sequence methods: parent string + a short
+    chain, so that the argument is itself a view"""
+    _, full = ALPHABETS[mt]
+    k = draw(st.sampled_from([n, n, n + 2, draw(st.integers(0, 12))]))
+    parent = "".join(draw(st.lists(st.sampled_from(full), min_size=k, max_size=k)))
+    ops = []
+    for _ in range(draw(st.sampled_from([0, 1, 1, 2]))):
+        kinds = ["rev", "slice"] + (["rc"] if mt in NUCLEIC else [])
+        kind = draw(st.sampled_from(kinds))
+        if kind == "rev":
+            ops.append(["slice", None, None, -1])
+        elif kind == "rc":
+            ops.append(["rc"])
+        else:
+            a = draw(st.sampled_from([None, 0, 1, -1, 2]))
+            b = draw(st.sampled_from([None, k, k + 1, -1, k - 1]))
+            ops.append(["slice", a, b, draw(st.sampled_from([None, 1, -1, 2, -2]))])
+    return parent, ops
+
+
+@st.composite
+def chain_cases(draw, max_len=40, max_depth=7, methods=False, dunders=False):
+    mt = draw(st.sampled_from(MOLTYPES))
     canon, full = ALPHABETS[mt]
     alpha = draw(st.sampled_from([canon, full]))
     L = draw(st.one_of(st.integers(0, 6), st.integers(4, max_len), st.integers(4, max_len)))
     parent = "".join(draw(st.lists(st.sampled_from(alpha), min_size=L, max_size=L)))
-    impl = draw(st.sampled_from(["old", "new"]))
+    impl = draw(st.sampled_from(IMPLS))
     offset = draw(st.sampled_from([0, 0, 1, 5, 17, 50]))
     depth = draw(st.integers(1, max_depth))
     ops = []
-    m = Model(parent, mt, offset, "s1")
-    cur_mt = mt
+    case = {"impl": impl, "mt": mt, "parent": parent, "offset": offset, "ops": ops}
+    if impl == "new-coll":
+        # offsets reach a collection member through the setter only
+        case["offset"] = offset = draw(st.sampled_from([0, 0, 0, 0, offset]))
+
+        def small():
+            k = draw(st.integers(0, 6))
+            return "".join(draw(st.lists(st.sampled_from(alpha), min_size=k, max_size=k)))
+
+        before = [small() for _ in range(draw(st.integers(0, 2)))]
+        after = [small() for _ in range(draw(st.integers(0, 2)))]
+        kinds = ["take", "rename", "add", "take_neg"]
+        if mt in NUCLEIC:
+            kinds += ["rc", "rc", "rc", "to_rna", "to_dna"]
+        route = draw(st.lists(st.sampled_from(kinds), min_size=0, max_size=3))
+        case["coll"] = {"before": before, "after": after, "route": route}
+    else:
+        if draw(st.integers(0, 4)) == 0:
+            # constructor route: any integers, as python slicing accepts
+            def arg():
+                return draw(st.one_of(st.none(), st.integers(-L - 3, L + 3), st.integers(-L - 3, L + 3)))
+
+            case["ctor"] = [arg(), arg(), draw(st.sampled_from(STEPS))]
+        elif offset and draw(st.booleans()):
+            case["set_offset"] = True
+    m = setup_models(case)[0]
+    cur_mt = m.mt
     empties = 0
     for _ in range(depth):
         n = len(m.idx)
@@ -147,7 +242,7 @@ def chain_cases(draw, max_len=40, max_depth=7, methods=False):
             if empties > 1:
                 break
         kinds = ["slice"] * 6 + ["index"]
-        if cur_mt in ("dna", "rna"):
+        if cur_mt in NUCLEIC:
             kinds += ["rc", "rc", "to_rna" if cur_mt == "dna" else "to_dna", "to_" + cur_mt]
         kinds += ["copy"]
         kind = draw(st.sampled_from(kinds))
@@ -201,36 +296,93 @@ def chain_cases(draw, max_len=40, max_depth=7, methods=False):
                 cur_mt = to
         else:
             ops.append(["copy"])
-    case = {"impl": impl, "mt": mt, "parent": parent, "offset": offset, "ops": ops}
-    if methods:
-        canon2, full2 = ALPHABETS[cur_mt]
-        k = draw(st.sampled_from([len(m.idx), len(m.idx), draw(st.integers(0, 12))]))
-        case["other"] = "".join(draw(st.lists(st.sampled_from(full2), min_size=k, max_size=k)))
+    if methods or dunders:
+        if len(m.idx) and draw(st.integers(0, 5)) == 0:
+            # a second sequence displaying the same string, as a plain sequence or as a twice reversed view
+            rev = ["slice", None, None, -1]
+            case["other"], case["other_ops"] = m.string(), draw(st.sampled_from([[], [rev, rev]]))
+        else:
+            case["other"], case["other_ops"] = draw(other_seq(cur_mt, len(m.idx)))
+    if dunders:
+        n = len(m.idx)
+        i = draw(st.integers(0, n))
+        j = draw(st.integers(i, min(n, i + 4)))
+        _, full2 = ALPHABETS[cur_mt]
+        case["sub"] = [i, j]
+        case["probe"] = "".join(draw(st.lists(st.sampled_from(full2), min_size=0, max_size=3)))
+        case["other_same_name"] = draw(st.booleans())
     return case
 
 
 # ---------------------------------------------------------------- execute
-def build(case):
-    from cogent3 import make_seq
+def _kw(mt, impl):
+    return {"preserve_case": True} if (mt == "text" and impl == "old") else {}
 
-    kw = {}
-    if case["mt"] == "text" and case["impl"] == "old":
-        kw["preserve_case"] = True
-    return make_seq(
-        case["parent"],
-        name="s1",
-        moltype=case["mt"],
-        new_type=case["impl"] == "new",
-        annotation_offset=case["offset"],
-        **kw,
-    )
+
+def build(case):
+    """returns (sequence, collection or None)"""
+    from cogent3 import make_seq, make_unaligned_seqs
+
+    impl, mt, parent = case["impl"], case["mt"], case["parent"]
+    if impl == "new-coll":
+        spec = case["coll"]
+        data = {f"b{i}": x for i, x in enumerate(spec["before"])}
+        data["s1"] = parent
+        data.update({f"a{i}": x for i, x in enumerate(spec["after"])})
+        coll = make_unaligned_seqs(data, moltype=mt, new_type=True)
+        name, cur, cur_mt = "s1", parent, mt
+        for k, r in enumerate(spec["route"]):
+            if r == "rc":
+                coll = coll.rc()
+                cur = complement(cur[::-1], cur_mt)
+            elif r == "take":
+                coll = coll.take_seqs([name])
+            elif r == "take_neg":
+                others = [x for x in coll.names if x != name]
+                if others:
+                    coll = coll.take_seqs(others[:1], negate=True)
+            elif r == "rename":
+                coll = coll.rename_seqs(lambda x: x + "x")
+                name += "x"
+            elif r == "add":
+                coll = coll.add_seqs({f"z{k}": cur})
+            elif r in ("to_rna", "to_dna"):
+                coll = getattr(coll, r)()
+                cur_mt = r[3:]
+                cur = convert_str(cur, cur_mt)
+        v = coll.get_seq(name)
+        if case["offset"]:
+            v.annotation_offset = case["offset"]
+        return v, (coll, name, cur)
+    kw = _kw(mt, impl)
+    new_type = impl == "new"
+    if "ctor" in case:
+        a, b, step = case["ctor"]
+        if new_type:
+            from cogent3.core import new_moltype, new_sequence
+
+            alpha = new_moltype.get_moltype(mt).most_degen_alphabet()
+            sv = new_sequence.SeqView(seq=parent, alphabet=alpha, start=a, stop=b, step=step, offset=case["offset"], seqid="s1")
+        else:
+            from cogent3.core import sequence
+
+            sv = sequence.SeqView(seq=parent, start=a, stop=b, step=step, offset=case["offset"], seqid="s1")
+        return make_seq(sv, name="s1", moltype=mt, new_type=new_type, **kw), None
+    if case.get("set_offset"):
+        v = make_seq(parent, name="s1", moltype=mt, new_type=new_type, **kw)
+        v.annotation_offset = case["offset"]
+        return v, None
+    return make_seq(parent, name="s1", moltype=mt, new_type=new_type, annotation_offset=case["offset"], **kw), None
 
 
 def observe(s: Soft, v, models, tag, impl):
-    """compare the view with the (candidate) models; returns surviving models"""
+    """compare the view with the (candidate) models; returns (surviving
+    models, snapshot of what the view displays)"""
     want = models[0].string()
+    snap = [None, None]
     ok, got = s.call(f"{tag}/str", str, v)
     if ok:
+        snap[0] = got
         s.eq(got, want, f"{tag}/str", "str(view)")
     ok, n = s.call(f"{tag}/len", len, v)
     if ok:
@@ -243,13 +395,14 @@ def observe(s: Soft, v, models, tag, impl):
             ok2, ch = s.call(f"{tag}/getitem-int", lambda: str(v[i]))
             if ok2:
                 s.eq(ch, want[i], f"{tag}/getitem-int", f"view[{i}]")
-    if impl == "new":
+    if impl != "old":
         ok, b = s.call(f"{tag}/bytes", lambda: bytes(v).decode("utf8"))
         if ok:
             s.eq(b, want, f"{tag}/bytes", "bytes(view)")
     ok, pc = s.call(f"{tag}/parent_coordinates", v.parent_coordinates)
     if ok:
         seqid, start, stop, strand = pc
+        snap[1] = (seqid, int(start), int(stop), int(strand))
         errs = [m.coords_ok(seqid, int(start), int(stop), int(strand)) for m in models]
         alive = [m for m, e in zip(models, errs) if e is None]
         if not alive:
@@ -259,20 +412,64 @@ def observe(s: Soft, v, models, tag, impl):
         ok, off = s.call(f"{tag}/annotation_offset", lambda: int(v.annotation_offset))
         if ok and alive and alive[0].idx:
             s.check(off == int(start), f"{tag}/annotation_offset", f"annotation_offset {off} != parent start {start}")
-    return models
+    return models, snap
+
+
+def unchanged(s: Soft, v, snap, sig):
+    """the receiver of an operation must display what it displayed before"""
+    if snap[0] is not None:
+        ok, now = s.call(sig, str, v)
+        if ok:
+            s.eq(now, snap[0], sig, "str(receiver) after the operation")
+    if snap[1] is not None:
+        ok, pc = s.call(sig, v.parent_coordinates)
+        if ok:
+            seqid, start, stop, strand = pc
+            s.eq((seqid, int(start), int(stop), int(strand)), snap[1], sig, "receiver.parent_coordinates() after the operation")
+
+
+def impl_prefix(case):
+    impl = case["impl"]
+    if impl == "new-coll":
+        # circumstance tags of confirmed defects (see ASSUMPTIONS)
+        if case["mt"] == "bytes":
+            return "new-coll@bytes/"
+        if case["offset"]:
+            return "new-coll@offset/"
+    return impl + "/"
 
 
 def run_chain(s: Soft, case):
     """returns (view, models) or (None, None) when the chain ended in a
-    documented exception"""
+    documented exception or in a failed step"""
     impl, mt = case["impl"], case["mt"]
-    pre = f"{impl}/"
-    ok, v = s.call(pre + "construct", build, case)
+    pre = impl_prefix(case)
+    ok, built = s.call(pre + "construct", build, case)
     if not ok:
         return None, None
-    models = [Model(case["parent"], mt, case["offset"], "s1")]
-    models = observe(s, v, models, pre + "fresh", impl)
-    cur_mt = mt
+    v, ctx = built
+    models = setup_models(case)
+    first = "fresh"
+    if "ctor" in case:
+        first = "ctor"
+        s.cls("route:SeqView-constructor")
+        step = case["ctor"][2]
+        if step is not None and step < 0:
+            s.cls("route:SeqView-constructor-reversed")
+    elif case.get("set_offset"):
+        first = "set-offset"
+        s.cls("route:offset-setter")
+    elif impl == "new-coll":
+        route = case["coll"]["route"]
+        first = "get_seq-routed" if route else "get_seq"
+        for r in route:
+            s.cls(f"route:coll-{r}")
+        if case["offset"]:
+            s.cls("route:offset-setter")
+    models, snap = observe(s, v, models, pre + first, impl)
+    if s.failures:
+        return None, None
+    cur_mt = models[0].mt
     negs = 0
     history = []
     for op in case["ops"]:
@@ -329,13 +526,23 @@ def run_chain(s: Soft, case):
             tag = kind
             history.append("c")
         else:
-            ok, v2 = s.call(pre + "copy", v.copy)
+            tag = "copy"
+            if impl == "new-coll" and snap[1] is not None and snap[1][1] != 0 and pre == "new-coll/":
+                tag = "copy@coll-slice"  # circumstance of a confirmed defect
+            ok, v2 = s.call(pre + tag, v.copy)
             if not ok:
                 return None, None
-            tag = "copy"
             history.append("p")
+        unchanged(s, v, snap, pre + tag + "/receiver-changed")
         v = v2
-        models = observe(s, v, models, pre + tag, impl)
+        models, snap = observe(s, v, models, pre + tag, impl)
+        if s.failures:
+            return None, None
+    if ctx is not None:
+        coll, name, cur = ctx
+        ok, again = s.call(pre + "collection-changed", lambda: str(coll.get_seq(name)))
+        if ok:
+            s.eq(again, cur, pre + "collection-changed", "str(coll.get_seq(name)) after the chain")
     # coverage classes
     dirs = [h[0] for h in history if h[0] in "fr"]
     for x, y in zip(dirs, dirs[1:]):
@@ -346,6 +553,8 @@ def run_chain(s: Soft, case):
         s.cls("offset")
     s.cls(impl, mt)
     s.nontrivial = len(case["ops"]) >= 2 and negs > 0 and len(models[0].idx) > 0
+    if s.failures:
+        return None, None
     return v, models
 
 
@@ -353,6 +562,45 @@ def exec_chain(case) -> Soft:
     s = Soft("C01/")
     run_chain(s, case)
     return s
+
+
+def make_other(s: Soft, case, cur_mt, impl, pre, name="o"):
+    """second sequence (a view when other_ops is non-empty) with its model
+    string and a fresh sequence built from that string"""
+    from cogent3 import make_seq
+
+    kw = _kw(cur_mt, impl)
+    new_type = impl != "old"
+    parent = case.get("other", "")
+    m = Model(parent, cur_mt, 0, name)
+
+    def mk():
+        o = make_seq(parent, name=name, moltype=cur_mt, new_type=new_type, **kw)
+        for op in case.get("other_ops", []):
+            if op[0] == "rc":
+                o = o.rc()
+            else:
+                o = o[op[1] : op[2] : op[3]]
+        return o
+
+    for op in case.get("other_ops", []):
+        if op[0] == "rc":
+            m.rc()
+        else:
+            m.slice(op[1], op[2], op[3])
+    want = m.string()
+    ok, other_v = s.call(pre + "other", mk)
+    if not ok:
+        return None
+    ok, got = s.call(pre + "other/str", str, other_v)
+    if not ok or not s.eq(got, want, pre + "other/str", "str(second sequence)"):
+        return None
+    ok, other_fresh = s.call(pre + "other-fresh", lambda: make_seq(want, name=name, moltype=cur_mt, new_type=new_type, **kw))
+    if not ok:
+        return None
+    if case.get("other_ops"):
+        s.cls("other-is-view")
+    return other_v, other_fresh, want
 
 
 # --------------------------------------------------- method differential
@@ -410,11 +658,33 @@ def norm(x, depth=0):
     return ("repr", type(x).__name__, repr(x))
 
 
-def method_table(v, other_str, mt):
+def pair_tables(a: str, b: str):
+    """deterministic similar_pairs dict and score matrix over the symbols of
+    the two strings"""
+    chars = sorted(set(a) | set(b))
+    pairs = {(x, y): 1 for x in chars for y in chars if (ord(x) * 3 + ord(y)) % 4 < 2}
+    matrix = {x: {y: (ord(x) * 7 + ord(y) * 13) % 11 for y in chars} for x in chars}
+    return pairs, matrix
+
+
+def documented_values(a: str, b: str, pairs, matrix):
+    """documented value of the two-sequence methods on plain strings
+    (truncation at the shorter sequence, 0 when one is empty)"""
+    z = list(zip(a, b))
+    k = min(len(a), len(b))
+    return {
+        "frac_same": sum(x == y for x, y in z) / k if k else 0,
+        "frac_diff": sum(x != y for x, y in z) / k if k else 0,
+        "diff": sum(x != y for x, y in z),
+        "distance": sum(x != y for x, y in z),
+        "frac_similar": sum((x, y) in pairs for x, y in z) / k if k else 0,
+        "matrix_distance": sum(matrix[x][y] for x, y in z),
+    }
+
+
+def method_table(v, mt):
     """name -> list of (args, kwargs) to call with"""
     n = len(v)
-    other_mk = lambda: type(v)  # noqa: E731
-    del other_mk
     first = str(v)[0] if n else "A"
     t = {
         "count": [((first,), {})],
@@ -425,7 +695,7 @@ def method_table(v, other_str, mt):
         "get_in_motif_size": [((), {"motif_length": 3}), ((), {"motif_length": 2})],
         "disambiguate": [((), {"method": "strip"})],
         "mw": [((), {"method": "strip"}), ((), {"method": "first"})],
-        "replace": [((first, "-"), {})] if mt != "text" else [((first, "b"), {})],
+        "replace": [((first, "-"), {})] if mt not in ("text", "bytes") else [((first, "b"), {})],
         "to_moltype": [(({"dna": "rna", "rna": "dna"}.get(mt, mt),), {})],
         "to_fasta": [((), {}), ((), {"block_size": 7})],
         "to_phylip": [((), {})],
@@ -434,6 +704,8 @@ def method_table(v, other_str, mt):
         "trim_stop_codon": [((), {}), ((), {"strict": True})],
         "has_terminal_stop": [((), {}), ((), {"strict": True})],
         "possibilities": [((), {})],
+        "frac_similar": [(("OTHER", "PAIRS"), {})],
+        "matrix_distance": [(("OTHER", "MATRIX"), {})],
     }
     for name in (
         "can_match", "can_mismatch", "must_match", "can_pair", "can_mispair", "must_pair", "diff", "distance",
@@ -451,17 +723,26 @@ def exec_methods(case) -> Soft:
     if v is None:
         return s
     impl = case["impl"]
-    cur_mt = v.moltype.label if hasattr(v.moltype, "label") else str(v.moltype)
+    pre = impl_prefix(case)
+    cur_mt = models[0].mt
     want = models[0].string()
-    kw = {"preserve_case": True} if (cur_mt == "text" and impl == "old") else {}
-    ok, fresh = s.call(impl + "/methods/fresh", lambda: make_seq(want, name="s1", moltype=cur_mt, new_type=impl == "new", **kw))
+    kw = _kw(cur_mt, impl)
+    ok, fresh = s.call(pre + "methods/fresh", lambda: make_seq(want, name=models[0].name, moltype=cur_mt, new_type=impl != "old", **kw))
     if not ok:
         return s
-    ok, other_v = s.call(impl + "/methods/other", lambda: make_seq(case.get("other", ""), name="o", moltype=cur_mt, new_type=impl == "new", **kw))
-    if not ok:
+    made = make_other(s, case, cur_mt, impl, pre + "methods/")
+    if made is None:
         return s
-    table = method_table(v, case.get("other", ""), cur_mt)
+    other_v, other_fresh, other_want = made
+    pairs, matrix = pair_tables(want, other_want)
+    documented = documented_values(want, other_want, pairs, matrix)
+    table = method_table(v, cur_mt)
     names = [n for n in dir(type(v)) if not n.startswith("_") and n not in EXCLUDE]
+    if impl == "new-coll" and v.parent_coordinates()[1] != 0:
+        # circumstance of a confirmed defect, reported by the chains under copy@coll-slice: copy() would
+        # change the view and every later method would repeat that root cause under its own signature
+        names.remove("copy")
+        s.cls("skipped:copy@coll-slice")
     called = 0
     for name in names:
         attr = inspect.getattr_static(type(v), name, None)
@@ -481,21 +762,124 @@ def exec_methods(case) -> Soft:
             calls = [((), {})]
         for args, kwargs in calls:
             res = []
-            for obj in (v, fresh):
-                a2 = tuple(other_v if a == "OTHER" else a for a in args)
+            raw = None
+            for obj, oth in ((v, other_v), (fresh, other_fresh)):
+                a2 = tuple({"OTHER": oth, "PAIRS": pairs, "MATRIX": matrix}.get(a, a) if isinstance(a, str) else a for a in args)
                 try:
                     r = getattr(obj, name)(*a2, **kwargs)
+                    if obj is v:
+                        raw = r
                     res.append(("ok", norm(r)))
                 except Exception as e:  # noqa: BLE001
                     res.append(("raises", type(e).__name__))
             called += 1
             if res[0] != res[1]:
                 s.fail(
-                    f"{impl}/method:{name}",
-                    f"{name}{args}{kwargs} on view {str(v)!r} (history {case['ops']}, parent {case['parent']!r}): view -> {res[0]!r}; fresh -> {res[1]!r}",
+                    f"{pre}method:{name}",
+                    f"{name}{args}{kwargs} on view {str(v)!r} (history {case['ops']}, parent {case['parent']!r}, other {other_want!r}): view -> {res[0]!r}; fresh -> {res[1]!r}",
                 )
+            elif res[0][0] == "raises":
+                # agreement that says nothing about the view
+                s.cls(f"both-raise:{name}")
+            else:
+                s.cls(f"answered:{name}")
+                if name in documented and "OTHER" in args:
+                    s.close(raw, documented[name], f"{pre}method-documented:{name}", f"{name} of {want!r} and {other_want!r}", rtol=1e-12)
+        # a read-only method leaves the receiver as it was
+        ok, now = s.call(f"{pre}method-changes-receiver:{name}", str, v)
+        if not ok or not s.eq(now, want, f"{pre}method-changes-receiver:{name}", f"str(view) after {name}"):
+            break
     s.evals = max(1, called)
     s.cls("methods")
+    return s
+
+
+# ------------------------------------------------------------ dunder probes
+def exec_dunders(case) -> Soft:
+    from cogent3 import make_seq
+
+    s = Soft("C01/")
+    v, models = run_chain(s, case)
+    if v is None:
+        return s
+    impl = case["impl"]
+    pre = impl_prefix(case) + "dunder/"
+    cur_mt = models[0].mt
+    want = models[0].string()
+    kw = _kw(cur_mt, impl)
+    ok, fresh = s.call(pre + "fresh", lambda: make_seq(want, name=models[0].name, moltype=cur_mt, new_type=impl != "old", **kw))
+    if not ok:
+        return s
+    oname = models[0].name if case.get("other_same_name") else "o"
+    made = make_other(s, case, cur_mt, impl, pre, name=oname)
+    if made is None:
+        return s
+    other_v, other_fresh, other_want = made
+    probes = 0
+    # circumstance of a confirmed defect: new-style Sequence.to_moltype keeps the class of its receiver
+    # (DnaSequence with an RNA moltype), which repr() and the name given by + expose
+    conv = "@converted" if (impl != "old" and ("convert" in s.classes or "convert-after-rev" in s.classes)) else ""
+
+    def probe(sig, fn, expect, what):
+        nonlocal probes
+        probes += 1
+        ok, got = s.call(pre + sig, fn)
+        if ok:
+            s.eq(got, expect, pre + sig, what)
+
+    # comparisons: "compares based on the sequence string"
+    probe("eq", lambda: v == other_v, want == other_want, f"{want!r} == {other_want!r}")
+    probe("ne", lambda: v != other_v, want != other_want, f"{want!r} != {other_want!r}")
+    probe("eq", lambda: other_v == v, want == other_want, f"{other_want!r} == {want!r}")
+    probe("eq-fresh", lambda: v == fresh, True, f"view {want!r} == fresh sequence")
+    probe("ne-fresh", lambda: v != fresh, False, f"view {want!r} != fresh sequence")
+    probe("eq-str", lambda: v == want, True, f"view == its own string {want!r}")
+    probe("eq-str", lambda: v == other_want, want == other_want, f"view {want!r} == str {other_want!r}")
+    probe("lt", lambda: v < other_v, want < other_want, f"{want!r} < {other_want!r}")
+    probe("lt", lambda: other_v < v, other_want < want, f"{other_want!r} < {want!r}")
+    s.cls("dunder:equal-pair" if want == other_want else "dunder:unequal-pair")
+    # hash: "behaves like the sequence string for dict lookup", consistent with ==
+    probe("hash", lambda: hash(v) == hash(want), True, f"hash(view) == hash({want!r})")
+    probe("hash-eq-consistent", lambda: hash(v) == hash(fresh), True, "view == fresh but their hashes differ")
+    probe("hash-lookup", lambda: {want: 1}.get(v), 1, "dict lookup of a string key with the view")
+    # containment: "checks whether other is in the sequence string"
+    i, j = case.get("sub", [0, 0])
+    for sub in (want[i:j], case.get("probe", ""), other_want[:2]):
+        probe("contains", lambda: sub in v, sub in want, f"{sub!r} in {want!r}")
+        s.cls("dunder:contains-true" if sub in want else "dunder:contains-false")
+    # concatenation: "Adds two sequences (other can be a string as well)"
+    for tag, oth, oth_fresh, oth_want in (("add-seq", other_v, other_fresh, other_want), ("add-str", other_want, other_want, other_want)):
+        ok, got = s.call(pre + tag, lambda: v + oth)
+        ok2, ref = s.call(pre + tag + "-fresh", lambda: fresh + oth_fresh)
+        probes += 1
+        if ok and ok2:
+            if not (impl == "old" and cur_mt == "text"):
+                s.eq(str(got), want + oth_want, pre + tag, f"{want!r} + {oth_want!r}")
+            s.eq(norm(got), norm(ref), pre + tag + "-vs-fresh" + conv, f"view + other vs fresh + other ({want!r} + {oth_want!r})")
+    ok, got = s.call(pre + "radd-view", lambda: other_fresh + v)
+    if ok and not (impl == "old" and cur_mt == "text"):
+        probes += 1
+        s.eq(str(got), other_want + want, pre + "radd-view", f"fresh {other_want!r} + view {want!r}")
+    # array / bytes / repr: no documented value, compared with the fresh sequence
+    for tag, fn in (("array", lambda x: numpy.array(x).tolist()), ("repr", repr)) + ((("bytes", bytes),) if impl != "old" else ()):
+        res = []
+        for obj in (v, fresh):
+            try:
+                res.append(("ok", fn(obj)))
+            except Exception as e:  # noqa: BLE001
+                res.append(("raises", type(e).__name__))
+        probes += 1
+        if res[0] != res[1]:
+            s.fail(pre + tag + (conv if tag == "repr" else ""), f"{tag} of view {want!r}: {res[0]!r}; of fresh: {res[1]!r}")
+        elif res[0][0] == "raises":
+            s.cls(f"both-raise:__{tag}__")
+        else:
+            s.cls(f"answered:__{tag}__")
+    ok, now = s.call(pre + "changes-receiver", str, v)
+    if ok:
+        s.eq(now, want, pre + "changes-receiver", "str(view) after the dunder probes")
+    s.evals = max(1, probes)
+    s.cls("dunders")
     return s
 
 
@@ -503,20 +887,21 @@ SUBS = [
     Sub("chains", exec_chain, strategy=chain_cases(), quick=12000, thorough=1_280_000, shards_quick=16),
     Sub("chains_long", exec_chain, strategy=chain_cases(max_len=200, max_depth=9), quick=1600, thorough=160_000, shards_quick=16),
     Sub("methods", exec_methods, strategy=chain_cases(max_len=24, max_depth=4, methods=True), quick=1600, thorough=160_000, shards_quick=16),
+    Sub("dunders", exec_dunders, strategy=chain_cases(max_len=24, max_depth=4, dunders=True), quick=3200, thorough=320_000, shards_quick=16),
 ]
 
 KNOWN_PREDICATES = {}
 
 # thorough tier: coverage-guided campaigns (atheris/libFuzzer mutating the bytes Hypothesis draws from)
 FUZZ = {
-    "subs": ['chains', 'chains_long', 'methods'],
-    "targets": ['cogent3.core.sequence', 'cogent3.core.new_sequence'],
+    "subs": ['chains', 'chains_long', 'methods', 'dunders'],
+    "targets": ['cogent3.core.sequence', 'cogent3.core.new_sequence', 'cogent3.core.new_alignment'],
     "execs_thorough": 40_000, "jobs_thorough": 4, "execs_quick": 1000, "jobs_quick": 2,
 }
 
 META = {
-    "technique": "Hypothesis-generated operation chains against a Python-string model carrying displayed parent indices; method differential view vs fresh sequence",
-    "level_text": "Thousands of generated slice/rc/convert/copy chains per run on both sequence implementations, all five observers compared with a string model after every step, parent coordinates checked by re-reading the parent, and every public read-only method compared between the view and a freshly built sequence. Exploration: chain depth and lengths are bounded (7 ops/40 symbols quick, 9/200 for the long sub-check).",
-    "level_note": "Trusts the harness' string model and IUPAC complement table. Excluded methods (random, plotting, annotation, serialisation) are listed in EXCLUDE and covered by C04/C10.",
+    "technique": "Hypothesis-generated operation chains against a Python-string model carrying displayed parent indices; method differential view vs fresh sequence; documented-value and dunder probes on strings",
+    "level_text": "Thousands of generated slice/rc/convert/copy chains per run on three sequence implementations (old-style, new-style, new-style backed by a collection's SeqDataView after rc/take_seqs/rename_seqs/add_seqs/to_rna routes), six moltypes, construction by string, by SeqView(seq,start,stop,step,offset,seqid) with arbitrary arguments or with the offset assigned afterwards; all observers compared with a string model after every step, parent coordinates checked by re-reading the parent, the receiver of every step re-read, every public read-only method compared between the view and a freshly built sequence (second argument itself a view), two-sequence methods and dunders compared with their documented value on strings. Exploration: chain depth and lengths are bounded (7 ops/40 symbols quick, 9/200 for the long sub-check).",
+    "level_note": "Trusts the harness' string model and IUPAC complement table. Excluded methods (random, plotting, annotation, serialisation) are listed in EXCLUDE and covered by C04/C10. Calls on which view and fresh sequence both raise are reported as coverage classes both-raise:<method>, not as evidence for the view.",
     "design_ref": "DESIGN.md section 1, C01",
 }
